@@ -25,6 +25,8 @@ def _bridge_waits(cs: ast.AST) -> bool:
 
 
 def run(ctx: Ctx) -> None:
+    if getattr(ctx, "_depth", 0) >= 2:
+        return  # alias of an alias: not followed (breaks import cycles between rule modules)
     repo = ctx.repo
     ctx.rule("C17.R1", "the WSGI application is called exactly once per request: one call site self.app(environ, start_response), not in a loop", floor=1)
     ctx.rule("C17.R2", "run_app runs off the event loop: it is referenced only as the argument of sync_spawn, and its sends go through call_soon; the loop-side bridge waits for each send to complete (ordering)", floor=4)
